@@ -38,10 +38,10 @@ Qed.
 
 (* whatever the signal, the context and the state: the handler, the except clauses it triggers and the
    exit phase only write the failure marker, remove the pid file and release the lock *)
-Lemma on_signal_quiet : forall g c s, forallb quiet (on_signal g c s) = true.
+Lemma on_signal_quiet : forall v g c s, forallb quiet (on_signal v g c s) = true.
 Proof.
-  intros g c s. destruct s as [dn fl pd lk rn cp ax ht hi cl nt].
-  destruct g, c, ht, hi, ax, cl, nt, lk, pd; reflexivity.
+  intros v g c s. destruct s as [dn fl pd lk rn cp ax ht hi cl nt].
+  destruct v, g, c, ht, hi, ax, cl, nt, lk, pd; reflexivity.
 Qed.
 
 Lemma run_effs_app : forall a b s, run_effs (a ++ b) s = run_effs b (run_effs a s).
@@ -53,7 +53,7 @@ Lemma launch_death_fields : forall v d o g k c,
   d_done d' = done s /\ d_runs d' = runs s /\ d_completed d' = completed s /\ d_lock d' = false.
 Proof.
   intros v d o g k c s d'. unfold d', launch, effects. rewrite run_effs_app. fold s.
-  destruct (run_quiet (on_signal g c s) s (on_signal_quiet g c s)) as (A & B & C).
+  destruct (run_quiet (on_signal v g c s) s (on_signal_quiet v g c s)) as (A & B & C).
   unfold die; simpl. auto.
 Qed.
 
@@ -187,3 +187,4 @@ Example history_nontrivial :
   history Fixed fresh [(ORaise, None); (OOk, Some (SKill, 8, CTry)); (OOk, Some (STerm, 7, CTry)); (OOk, None); (OOk, None)]
   = {| d_done := true; d_failed := None; d_pid := false; d_lock := false; d_runs := 4; d_completed := 1 |}.
 Proof. vm_compute. reflexivity. Qed.
+
